@@ -7,7 +7,7 @@ MANIFEST = dict(
     category="proof",
     text="Contract on the real OPN2::touchNote body (extracted mechanically on every run) with the chips replaced by a register tap: exactly the four TL registers of the channel are written, every value is in 0..127, table indices stay in range and nothing else is assigned, zero velocity/volume/expression/master volume silences every carrier, modulators untouched without modulator scaling/brightness - for every argument in the 7-bit ranges, every volume model, algorithm, operator level, chip count. Monotonicity: see level_note.",
     design_ref="DESIGN.md C11",
-    level_note="Trusted: extraction rules; environment (register tap, typed vectors); libm log/sqrt replaced by stated range contracts; carrier table transcribed from the YM2612 manual. The 7-bit argument ranges are preconditions (obligation of the callers, C03).",
+    level_note="Trusted: extraction rules; environment (register tap, typed vectors); libm log/sqrt replaced by stated range contracts; carrier table transcribed from the YM2612 manual. The 7-bit argument ranges are preconditions of touchNote; its caller (the Upd_Volume range of noteUpdate) is proved to establish them from the table invariant that C03 proves inductive, and to hand over the documented brightness (percussion 127; CC74 itself with the full-range flag; otherwise doubled below 64 and 127 from 64).",
     technique="CBMC code contracts (DFCC) on the mechanically extracted member function; exhaustive native evaluation of the same extracted text for the monotonicity lemma")
 TRUSTED = ["extraction rules of vlib/cxx2c.py", "harness/env_opn2.h (register tap, typed storage for std::vector members)",
            "assumed contract: log (range on [1108076, 127^4])", "assumed contract: sqrt ([0,1] -> [0,1])", "CBMC's model of round()"]
@@ -104,8 +104,24 @@ def replay(g, obligation, wit, workroot):
                 args=args, output=r.stdout[-600:], stderr=r.stderr[-300:])
 
 
+VOLRANGE = dict(file="src/opnmidi_midiplay.cpp", name="OPNMIDIplay::noteUpdate", cls=None, rename="noteUpdate_volume", must=["R12", "R2", "R3"],
+                cut_from=r"\n[ \t]*if\(props_mask & Upd_Volume\)\n", cut_at=r"\n[ \t]*if\(props_mask & Upd_Pitch\)\n", epilogue="    return;",
+                params_override="size_t midCh, uint16_t c, uint8_t vol, unsigned props_mask, MIDIchannel *m_midiChannels, bool fullRange", sig_post=[(r"^bool$", "void")],
+                post=[(r"synth\.touchNote\(", "touchNote_record("), (r"m_setup\.fullRangeBrightnessCC74", "fullRange")])
+
+
+def _extract_vol(wd):
+    info = extract_play.emit(wd, [VOLRANGE])
+    return info
+
+
 def groups(tier):
     return [Group("touchNote_contract", "harness/opn2_h.c", "h_touchNote", enforce="touchNote", replace=["log", "sqrt"],
                   extract=_extract, required=[r"postcondition", r"assigns", r"TAP chip index"], timeout=600, object_bits=9,
                   funcs=["OPN2::touchNote", "OPN2::writeRegI", "getOpnChannel"], checks=None,
-                  flags=["--conversion-check", "--float-overflow-check", "--nan-check"])]
+                  flags=["--conversion-check", "--float-overflow-check", "--nan-check"]),
+            Group("noteUpdate_volume_range_contract", "harness/opn2_h.c", "h_noteUpdate_volume", enforce="noteUpdate_volume", replace=["touchNote_record"],
+                  extract=_extract_vol, defines=["WITH_VOLUME_RANGE"], object_bits=9, required=[r"postcondition", r"assigns", r"precondition"], timeout=600,
+                  checks=["--bounds-check", "--pointer-check", "--div-by-zero-check", "--signed-overflow-check", "--undefined-shift-check", "--no-malloc-may-fail", "--conversion-check"],
+                  funcs=["OPNMIDIplay::noteUpdate (range: the Upd_Volume branch)"],
+                  note="caller side of touchNote: arguments inside its precondition under the table invariant; brightness mapping of CC74")]
